@@ -255,6 +255,16 @@ func (c *Case) Violate(kind, sig, format string, args ...any) {
 	c.mu.Unlock()
 }
 
+// DropViolations discards the violations recorded so far and returns how many there were
+// (used when a workload runs under another property's oracle).
+func (c *Case) DropViolations() int {
+	c.mu.Lock()
+	defer c.mu.Unlock()
+	n := len(c.viol)
+	c.viol = nil
+	return n
+}
+
 // Violated reports whether a violation was recorded.
 func (c *Case) Violated() bool {
 	c.mu.Lock()
